@@ -59,7 +59,9 @@ ASSUMPTIONS = [
     "ZeroDivisionError; values are ints, Files and the caught exception; one root call t0(arg) per execution",
     "edits between executions: new body (new source text / new version string), revert to an earlier body or version, version "
     "bump with unchanged body, check_valid full<->shallow (hash unchanged), input file rewritten or restored with explicitly "
-    "set mtime (distinct stamp <-> distinct content), root argument change - in 15% of the histories between look-alike primitives "
+    "set mtime (distinct stamp <-> distinct content), edits that change only a string constant of an unversioned body (after a `#` "
+    "inside the literal, inside quotes, before a trailing comment), comment-only edits (the model, like the code, sees a new "
+    "source text = new hash: re-execution), root argument change - in 15% of the histories between look-alike primitives "
     "(0, 0.0, -0.0, False / 1, 1.0, True: equal under ==, different values) given to tasks that look at the type and sign of their "
     "argument. A task with an explicit version= changes its body "
     "only together with the version string (redun's contract for version=)",
@@ -111,8 +113,8 @@ def tm_sx(t):
     k = t[0]
     if k in ("arg", "numarg", "kindarg"):
         return Raw(k)
-    if k == "lit":
-        return t[1]
+    if k == "lit" or k == "slit":
+        return t[1]                                   # a string-literal constant is an int constant for the model
     if k == "file":
         return [Raw("file"), t[1]]
     if k == "add":
@@ -134,6 +136,8 @@ def tm_py(t, paths):
         return "_kind(x)"
     if k == "lit":
         return "(%d)" % t[1]
+    if k == "slit":
+        return "_sv(%s)" % slit_literal(t[1], t[2])
     if k == "file":
         return "File(%r)" % paths[t[1]]
     if k == "add":
@@ -159,6 +163,44 @@ def prim_py(a):
 
 
 LOOKALIKES = [0, ("prim", 1, 0), ("prim", 2, 0), ("prim", 3, 0), 1, ("prim", 1, 1), ("prim", 3, 1)]
+
+
+# ("slit", z, style): the int z written as a string constant in the task body, e.g. _sv("c#17/w"): the result depends on text
+# that follows a `#`, a quote or precedes a trailing comment inside the source line
+SLIT_STYLES = 5
+
+
+def slit_literal(z, style):
+    if style == 0:
+        return '"c#%d/w"' % z                          # `#` inside a string literal
+    if style == 1:
+        return repr('q"x\'#%d/w' % z)                  # quotes of both kinds before the `#`
+    if style == 2:
+        return '"#%d"' % z                             # the literal starts with `#`
+    if style == 3:
+        return "'n%d'" % z                             # no `#` in the literal; the line gets a trailing comment (module_text)
+    return '"p#%d/w"' % z                              # `#` in the literal and a trailing comment with quotes on the line
+
+
+def slit_positions(t, path=()):
+    out = [path] if t[0] == "slit" else []
+    for k, x in enumerate(t[1:], 1):
+        if isinstance(x, tuple):
+            out += slit_positions(x, path + (k,))
+    return out
+
+
+def slit_at(t, path):
+    for k in path:
+        t = t[k]
+    return t
+
+
+def slit_replace(t, path, z):
+    if not path:
+        return ("slit", z, t[2])
+    k = path[0]
+    return t[:k] + (slit_replace(t[k], path[1:], z),) + t[k + 1:]
 
 
 def spec_sx(s):
@@ -235,8 +277,10 @@ def gen_tm(rng, i, hist, depth, allow_catch, allow_file):
         r = rng.random()
         if r < 0.5:
             return ("arg",)
-        if r < 0.7:
+        if r < 0.62:
             return ("lit", rng.choice([0, 1, 2, 3, 5, 10]))
+        if r < 0.80:
+            return ("slit", rng.choice([0, 1, 4, 17, 30]), rng.randrange(SLIT_STYLES))
         return ("add", ("arg",), ("lit", rng.choice([1, 2, 10])))
     if k < 0.5 and int_callees:
         return ("call", rng.choice(int_callees), gen_tm(rng, i, hist, depth - 1, allow_catch, allow_file))
@@ -332,6 +376,27 @@ def gen_history(rng, nsteps, allow_catch, allow_shallow=True, prim=False):
                 if prim and r < 0.55:                          # argument change to a look-alike (0 / 0.0 / -0.0 / False, 1 / 1.0 / True)
                     arg = rng.choice([x for x in LOOKALIKES if x != arg])
                     edits.append(["arg", arg])
+                elif (r < 0.16 and h.versions[i][v][0] == "ret" and slit_positions(h.versions[i][v][1])
+                      and h.tasks[i]["mode"] == "src"):
+                    # only a string constant of the body changes (text after a `#` / inside quotes / before a comment)
+                    tm = h.versions[i][v][1]
+                    pos = rng.choice(slit_positions(tm))
+                    cur = tm
+                    for k in pos:
+                        cur = cur[k]
+                    sp = ("ret", slit_replace(tm, pos, cur[1] + rng.choice([1, 2, 10])))
+                    if sp in h.versions[i]:
+                        nv = h.versions[i].index(sp)
+                    else:
+                        h.versions[i].append(sp)
+                        nv = len(h.versions[i]) - 1
+                    code[i] = (nv, sh)
+                    edits.append(["strlit", i, nv])
+                elif r < 0.22 and h.tasks[i]["mode"] == "src" and not prim:
+                    # comment-only edit: the source text (hence the hash) changes, the body does not
+                    h.versions[i].append(h.versions[i][v])
+                    code[i] = (len(h.versions[i]) - 1, sh)
+                    edits.append(["comment", i, code[i][0]])
                 elif r < 0.40 or (prim and r < 0.75):          # new body (new hash)
                     sp = new_spec(i, 0.12)
                     if h.tasks[i]["mode"] == "src" and sp in h.versions[i]:
@@ -412,9 +477,10 @@ class RealHist:
 
     def module_text(self, code):
         h = self.hist
-        out = ["import math", "from redun import task, File", "from redun.scheduler import catch", "", "",
+        out = ["import math", "import re", "from redun import task, File", "from redun.scheduler import catch", "", "",
                "def _num(x):", "    if isinstance(x, File):", "        with open(x.path) as f:",
                "            return int(f.read())", "    return int(x)", "", "",
+               "def _sv(s):", "    return int(re.search(r\"(-?[0-9]+)(/w)?$\", s).group(1))", "", "",
                "def _kind(x):", "    if isinstance(x, bool):", "        return 3", "    if isinstance(x, float):",
                "        return 2 if math.copysign(1.0, x) < 0 else 1", "    return 0 if isinstance(x, int) else 9", ""]
         for i in sorted(code):
@@ -431,7 +497,13 @@ class RealHist:
             else:
                 if h.tasks[i]["mode"] == "src":
                     out.append("    # body %d" % v)     # two different specs never share a source text
-                out.append("    return %s" % tm_py(spec[1], self.paths))
+                line = "    return %s" % tm_py(spec[1], self.paths)
+                styles = [x for pos in slit_positions(spec[1]) for x in [slit_at(spec[1], pos)[2]]]
+                if any(st >= 3 for st in styles):
+                    line += '  # "quoted" colour # twice'        # a trailing comment after the string constants
+                elif h.tasks[i]["mode"] == "src" and v % 2 == 1:
+                    line += "  # rev %d" % v                     # ... or on every other version
+                out.append(line)
         return "\n".join(out) + "\n"
 
     def define(self, code):
@@ -775,6 +847,23 @@ def corpus():
         [[("ret", ("add", ("kindarg",), C(1, A)))], [("ret", ("add", ("kindarg",), ("numarg",)))]],
         [dict(code=dict(code2), fs={0: 1, 1: 1}, root=(0, a), edits=[["arg", a]]) for a in
          [("prim", 1, 0), ("prim", 2, 0), ("prim", 3, 0), 0, ("prim", 3, 1), ("prim", 1, 1), 1, ("prim", 1, 0)]])
+    # only string constants of unversioned task bodies change (after a `#`, inside quotes, before a trailing comment); then a
+    # comment-only edit (a re-execution is fine, a stale result is not) and a revert
+    def cs(a, b, c, d):
+        return {0: (a, False), 1: (b, False), 2: (c, False), 3: (d, False)}
+    out["string-literal-edits"] = H(
+        [("I", "src"), ("I", "src"), ("I", "src"), ("I", "src")],
+        [[("ret", ("add", ("add", ("slit", 17, 0), C(1, A)), ("add", C(2, A), C(3, A)))), ("ret", ("add", ("add", ("slit", 18, 0), C(1, A)), ("add", C(2, A), C(3, A)))),
+          ("ret", ("add", ("add", ("slit", 18, 0), C(1, A)), ("add", C(2, A), C(3, A))))],
+         [("ret", ("add", A, ("slit", 5, 1))), ("ret", ("add", A, ("slit", 6, 1)))],
+         [("ret", ("slit", 30, 4)), ("ret", ("slit", 31, 4))],
+         [("ret", ("add", ("slit", 1, 3), ("slit", 2, 2))), ("ret", ("add", ("slit", 1, 3), ("slit", 4, 2))), ("ret", ("add", ("slit", 3, 3), ("slit", 4, 2)))]],
+        [dict(code=cs(0, 0, 0, 0), fs={0: 1, 1: 1}, root=(0, 0)),
+         dict(code=cs(1, 0, 0, 0), fs={0: 1, 1: 1}, root=(0, 0), edits=[["strlit", 0, 1]]),
+         dict(code=cs(1, 1, 0, 0), fs={0: 1, 1: 1}, root=(0, 0), edits=[["strlit", 1, 1]]),
+         dict(code=cs(1, 1, 1, 1), fs={0: 1, 1: 1}, root=(0, 0), edits=[["strlit", 2, 1], ["strlit", 3, 1]]),
+         dict(code=cs(2, 1, 1, 2), fs={0: 1, 1: 1}, root=(0, 0), edits=[["comment", 0, 2], ["strlit", 3, 2]]),
+         dict(code=cs(0, 0, 1, 2), fs={0: 1, 1: 1}, root=(0, 0), edits=[["revert", 0, 0], ["revert", 1, 0]])])
     # edit / revert / bump of a leaf under two levels of cached single reductions
     out["edit-revert-bump"] = H(
         [("I", "src"), ("I", "ver"), ("I", "ver")],
